@@ -397,6 +397,50 @@ def _is_try_of(p, ev):
 # ------------------------------------------------------------------------------------------------
 # walker
 
+def walker_pairs(ctx, fa, f):
+    """how the walker receives the (offset, length) of the directory it reads: [(offset term, length term, type)] — its parameter of type
+    (u64, u64), or a parameter whose type is a local struct of exactly two u64 fields.  For the struct the two fields are told apart by USE:
+    the one the walker seeks to is the offset (the obligations then demand that the other bounds the decoder and that every construction of
+    the struct fills the fields accordingly)."""
+    out = []
+    for n, prm in zip(fa.param_names, f["params"]):
+        ty = (prm["ty"] or "").replace(" ", "")
+        P = V("param:" + n)
+        if ty == "(u64,u64)":
+            out.append((("proj", P, 0), ("proj", P, 1), None))
+            continue
+        a = ctx.facts.adts.get(ty.replace("&", ""))
+        if a is not None and a.get("kind") == "struct" and len(a["variants"]) == 1:
+            fl = a["variants"][0]["fields"]
+            if len(fl) == 2 and all(x["ty"] == "u64" for x in fl):
+                names = [x["name"] for x in fl]
+                sought = set()
+                for p in fa.paths:
+                    for e in p.events:
+                        if e.kind == "call" and any(k == "seek" for k, ks in e.d["effects"]) and len(e.d["args"]) > 1:
+                            t = unmut(e.d["args"][1])
+                            if is_call_to(t, lambda s_: s_ == "std::io::SeekFrom::Start") and t[2]:
+                                t0 = unmut(t[2][0])
+                                if t0[0] == "f" and t0[1] == P and t0[2] in names:
+                                    sought.add(t0[2])
+                if len(sought) == 1:
+                    o = list(sought)[0]
+                    l = [x for x in names if x != o][0]
+                    out.append((("f", P, o), ("f", P, l), (a["path"], o, l)))
+    return out
+
+
+def pair_of_arg(x, pairs):
+    """(offset, length) handed to a recursive call: a 2-tuple, or a literal of the walker's pair struct"""
+    if isinstance(x, tuple) and x and x[0] == "tup" and len(x[1]) == 2:
+        return x[1][0], x[1][1]
+    if isinstance(x, tuple) and x and x[0] == "struct":
+        for _o, _l, ty in pairs:
+            if ty is not None and x[1] == ty[0]:
+                return struct_field(x, ty[1]), struct_field(x, ty[2])
+    return None
+
+
 def r_walk(ctx):
     obs = []
     ws = ctx.walkers()
@@ -418,11 +462,12 @@ def r_walk(ctx):
                     a = [unmut(x) for x in e.d["args"]]
                     ent = _loop_entry(a, D)
                     # (ii) recursive call: (leaf_dir_offset + entry.offset, entry.length); pass-through of compression, leaf offset, filter
-                    tup = [x for x in a if isinstance(x, tuple) and x and x[0] == "tup" and len(x[1]) == 2]
+                    wp = walker_pairs(ctx, fa, f)
+                    tup = [pr for pr in (pair_of_arg(x, wp) for x in a) if pr is not None]
                     ok_addr = False
                     why = "no (offset, length) tuple argument"
                     if tup and ent is not None:
-                        off, ln = tup[0][1]
+                        off, ln = tup[0]
                         oa = affine(off)
                         ok_addr = oa[0] == 0 and oa[1] == {role_param(fa, f, "u64"): 1, ("f", ent, "offset"): 1} and aff_eq(affine(ln), affine(("f", ent, "length")))
                         why = "leaf address = (%s, %s)" % (aff_str(oa), aff_str(affine(ln)))
@@ -453,6 +498,22 @@ def r_walk(ctx):
                                   "key = %s; value = %s" % (tstr(key)[:100], tstr(val)[:120]), e.loc()))
                     ok_disp = ent is not None and _decided(p, e.seq, lambda c: _is_leaf_test(c, ent), False)
                     obs.append(Ob("R-WALK", fn, "insert only for tile entries (run_length != 0)", ok_disp, "decisions before the insert", e.loc()))
+        # the entry points hand the walker the (offset, length) pair they were given, components in place
+        wp = walker_pairs(ctx, fa, f)
+        for g in ctx.user_fns():
+            if g["path"] == fn or fn not in set(c["fn"] for c in calls(g["body"])):
+                continue
+            ga = ctx.fa(g)
+            gpairs = [V("param:" + n_) for n_, prm_ in zip(ga.param_names, g["params"]) if (prm_["ty"] or "").replace(" ", "") == "(u64,u64)"]
+            if not gpairs:
+                continue
+            for p in ga.paths:
+                for e in p.events:
+                    if e.kind == "call" and e.d["fn"] == fn:
+                        a = [unmut(x) for x in e.d["args"]]
+                        okp = any(x in gpairs for x in a) or any(pr is not None and any(pr == (("proj", P_, 0), ("proj", P_, 1)) for P_ in gpairs) for pr in (pair_of_arg(x, wp) for x in a))
+                        obs.append(Ob("R-WALK", g["path"], "entry point passes its (offset, length) pair to the walker unchanged", okp,
+                                      "arguments: %s" % ", ".join(tstr(x)[:40] for x in a[1:]), e.loc()))
         if n_ins == 0:
             obs.append(Ob("R-WALK", fn, "insert site", False, "walker never inserts into the tile map", rel(f["loc"])))
         if n_rec == 0:
@@ -855,10 +916,10 @@ def r_bounded_read(ctx):
                     prev = [x for x in p.events if x.kind == "call" and x.seq < e.seq and any(k == "seek" for k, ks in x.d["effects"] if S in ks)]
                     tgt = unmut(prev[-1].d["args"][1]) if prev else None
                     # the (offset, length) pair the walker is called with: its one parameter of type (u64, u64), destructured in the signature or in the body
-                    pairs = [V("param:" + n) for n, prm in zip(fa.param_names, f["params"]) if (prm["ty"] or "").replace(" ", "") == "(u64,u64)"]
-                    off_ok = tgt is not None and is_call_to(tgt, lambda s: s == "std::io::SeekFrom::Start") and any(unmut(tgt[2][0]) == ("proj", P_, 0) for P_ in pairs)
+                    pairs = walker_pairs(ctx, fa, f)
+                    off_ok = tgt is not None and is_call_to(tgt, lambda s: s == "std::io::SeekFrom::Start") and any(unmut(tgt[2][0]) == o_ for o_, l_, _t in pairs)
                     len_ok = cls[0] == "bounded" and (cls[1] == 1 or (isinstance(cls[1], tuple) and cls[1][0] == "via" and cls[1][2] == 1)) and len(args) > 1 and \
-                        any(args[1] == ("proj", P_, 1) and unmut(tgt[2][0]) == ("proj", P_, 0) for P_ in pairs) if off_ok else False
+                        any(args[1] == l_ and unmut(tgt[2][0]) == o_ for o_, l_, _t in pairs) if off_ok else False
                     obs.append(Ob("R-BOUNDED-READ", fn, "walker: seek(Start(dir_offset)) then decode bounded by dir_length", off_ok and len_ok,
                                   "seek = %s; decoder class = %s; length arg = %s" % (tstr(tgt)[:60] if tgt else "none", cls, tstr(args[1])[:60] if len(args) > 1 else "?"), e.loc()))
                     break
